@@ -8,7 +8,7 @@ from .. import gen, impl, oracle, ser, stream
 
 ID = "C10"
 LEVEL = "proof"
-PROPS_MODULE = "SymmModel.Props.C10All6"
+PROPS_MODULE = "SymmModel.Props.C10All7"
 THEOREMS = [
     "SymmModel.C10.oddposDag_involutive",
     "SymmModel.C10.Index.conj_conj",
@@ -91,10 +91,36 @@ THEOREMS = [
     "SymmModel.C10.network_norm_mixed",
     "SymmModel.C10.network_norm_mixed_seq",
     "SymmModel.C10.network_norm_mixed_seq_oneKet",
-    "SymmModel.C10.crossAx_eq_rotAx"
+    "SymmModel.C10.crossAx_eq_rotAx",
+    "SymmModel.C10.cross_guard",
+    "SymmModel.C10.cross_call_any_mode",
+    "SymmModel.C10.network_norm_mixed_any_mode",
+    "SymmModel.C10.network_norm_mixed_auto",
+    "SymmModel.C10.tw_cross_any_mode",
+    "SymmModel.C10.network_norm_mixed_seq_any_mode",
+    "SymmModel.C10.network_norm_mixed_seq_any_mode_oneKet",
+    "SymmModel.C10.conj_phase_dual_is_braOf",
+    "SymmModel.C10.braOf_spare_ket",
+    "SymmModel.C10.conj_tensordot_spared",
+    "SymmModel.C10.chain_second_guard",
+    "SymmModel.C10.network_norm_chain3",
+    "SymmModel.C10.network_norm_chain3_strong",
+    "SymmModel.C10.chain3_needs_sparing",
+    "SymmModel.C10.chain_both",
+    "SymmModel.C10.full_congr",
+    "SymmModel.C10.network_norm_chain3_routes",
+    "SymmModel.C10.full_guard_frames",
+    "SymmModel.C10.network_norm_chain3_any_mode",
+    "SymmModel.C10.network_norm_chain3_auto",
+    "SymmModel.C10.chain_conj",
+    "SymmModel.C10.network_norm_chain",
+    "SymmModel.C10.network_norm_chain_bracketings",
+    "SymmModel.C10.evalLM_blockwise",
+    "SymmModel.C10.chain_conj_any_mode",
+    "SymmModel.C10.network_norm_chain_any_mode"
 ]
-LEAN_FILES = ["SymmModel.Props.C10", "SymmModel.Proofs.LazyLemmas", "SymmModel.Props.C10b", "SymmModel.Proofs.NormLemmas", "SymmModel.Props.C10c", "SymmModel.Props.C10All2", "SymmModel.Proofs.NormNet1", "SymmModel.Proofs.NormNet2", "SymmModel.Proofs.NormNet3", "SymmModel.Proofs.NormNet4", "SymmModel.Proofs.NormNet5", "SymmModel.Proofs.NormNet6", "SymmModel.Proofs.NormNetLabels", "SymmModel.Props.C10d", "SymmModel.Props.C10All3", "SymmModel.Proofs.NormNet7", "SymmModel.Proofs.NormNet8", "SymmModel.Proofs.NormNet9", "SymmModel.Proofs.NormNet10", "SymmModel.Proofs.NormNet11", "SymmModel.Proofs.NormNet12", "SymmModel.Props.C10e", "SymmModel.Props.C10All4", "SymmModel.Proofs.NormNet13", "SymmModel.Proofs.NormNet14", "SymmModel.Proofs.NormNet15", "SymmModel.Proofs.NormNet16", "SymmModel.Props.C10f", "SymmModel.Props.C10All5", "SymmModel.Proofs.NormNet17", "SymmModel.Proofs.NormNet18", "SymmModel.Proofs.NormNet19", "SymmModel.Proofs.NormNet20", "SymmModel.Props.C10g", "SymmModel.Props.C10All6", "SymmModel.Proofs.NormNet21", "SymmModel.Proofs.NormNet22", "SymmModel.Proofs.NormNet23", "SymmModel.Proofs.NormNet24"]
-PLANNED = ["netLabelsB as a theorem for more than two labels per tensor (<= 2 proved symbolically in C04g", "decided by evaluation otherwise)", "bracketings that first contract a ket with a bra tensor", "three-tensor chains", "mixed operand orders in fused/auto mode"]
+LEAN_FILES = ["SymmModel.Props.C10", "SymmModel.Proofs.LazyLemmas", "SymmModel.Props.C10b", "SymmModel.Proofs.NormLemmas", "SymmModel.Props.C10c", "SymmModel.Props.C10All2", "SymmModel.Proofs.NormNet1", "SymmModel.Proofs.NormNet2", "SymmModel.Proofs.NormNet3", "SymmModel.Proofs.NormNet4", "SymmModel.Proofs.NormNet5", "SymmModel.Proofs.NormNet6", "SymmModel.Proofs.NormNetLabels", "SymmModel.Props.C10d", "SymmModel.Props.C10All3", "SymmModel.Proofs.NormNet7", "SymmModel.Proofs.NormNet8", "SymmModel.Proofs.NormNet9", "SymmModel.Proofs.NormNet10", "SymmModel.Proofs.NormNet11", "SymmModel.Proofs.NormNet12", "SymmModel.Props.C10e", "SymmModel.Props.C10All4", "SymmModel.Proofs.NormNet13", "SymmModel.Proofs.NormNet14", "SymmModel.Proofs.NormNet15", "SymmModel.Proofs.NormNet16", "SymmModel.Props.C10f", "SymmModel.Props.C10All5", "SymmModel.Proofs.NormNet17", "SymmModel.Proofs.NormNet18", "SymmModel.Proofs.NormNet19", "SymmModel.Proofs.NormNet20", "SymmModel.Props.C10g", "SymmModel.Props.C10All6", "SymmModel.Proofs.NormNet21", "SymmModel.Proofs.NormNet22", "SymmModel.Proofs.NormNet23", "SymmModel.Proofs.NormNet24", "SymmModel.Props.C10h", "SymmModel.Proofs.NetNorm1", "SymmModel.Proofs.NetNorm2", "SymmModel.Proofs.NetNorm3", "SymmModel.Proofs.NetNorm4", "SymmModel.Proofs.NetNorm5", "SymmModel.Proofs.NetNorm6", "SymmModel.Proofs.NetNorm7", "SymmModel.Proofs.NetNorm8", "SymmModel.Proofs.NetNorm9", "SymmModel.Proofs.NetNorm10", "SymmModel.Proofs.NetNorm11", "SymmModel.Proofs.NetNorm12"]
+PLANNED = ["bracketings that first contract a ket with a bra tensor ((a-bar.a).(b-bar.b), ((a-bar.a).b-bar).b)", "nested routes that absorb the bra tensors of a chain one at a time", "operand-swapped halves for chains", "fused/auto mode for chain bracketings other than left-nested", "netLabelsB as a theorem for more than two labels per tensor (<= 2 proved symbolically in C04g)"]
 RULE = ("random fermionic arrays (all symmetries, every dualness pattern, even/odd charge with labels, pending signs, "
         "real/complex): <x|x> through conj (all-ket or phase_dual) in both operand orders equals the exact integer "
         "sum |x|^2; conj/dagger involutions; dagger == transpose(conj) for both settings of phase_dual; 2-3 tensor "
